@@ -162,6 +162,18 @@ def run_case(case):
             except Exception as e:
                 devs.append((f'raised-{type(e).__name__}', f'{label}: {type(e).__name__}: {e}'))
                 continue
+            # an altitude that is a whole number of metres may arrive as an int: same value, same answer
+            if not refused and c['kind'] == 'field' and with_time:
+                a_int = int(round(alt))
+                try:
+                    g_f = w.get_ground_speed(time=when, gt_point=pt, altitude=float(a_int), true_airspeed=float(c['tas']), azimuth=given)
+                    g_i = w.get_ground_speed(time=when, gt_point=pt, altitude=a_int, true_airspeed=float(c['tas']), azimuth=given)
+                    if not (math.isfinite(g_i) and abs(g_i - g_f) <= 1e-9 * max(1.0, abs(g_f))):
+                        devs.append(('altitude-argument-type', f'{label}: altitude {a_int} m given as int: ground speed {g_i!r}; given as float: {g_f!r}'))
+                except ValueError:
+                    pass  # rounding moved the point out of the data domain
+                except Exception as e:
+                    devs.append(('altitude-argument-type', f'{label}: altitude {a_int} m given as int: raised {type(e).__name__}: {e}'))
             if refused != bool(o['refused']):
                 if refused:
                     devs.append(('inside-domain-refused', f'{label}: refused although inside the data domain'))
